@@ -6,7 +6,7 @@ from model import expr as M
 from gen import exprgen
 
 MNEMS = ["ld", "ldx", "ldxy", "l", "st", "stx", "add", "ad", "a", "mov", "jmp", "j", "jr", "nop", "halt",
-         "inc1", "x2", "cmp", "push", "pop", "mul", "and", "or", "b", "bra", "call", "ret", "ldi"]
+         "inc1", "x2", "cmp", "push", "pop", "mul", "and", "or", "b", "bra", "call", "ret", "ldi", "2dup", "2w", "4s"]
 REGS = ["a", "b", "c", "x", "y", "sp", "hl", "r0", "r1", "r2", "r3", "ix"]
 WRAPS = [("", ""), ("", ""), ("", ""), ("", ""), ("(", ")"), ("[", "]"), ("#", "")]
 
@@ -62,7 +62,9 @@ def render_pat(pat, comma_space=True, cs=None):
 
 
 def is_ident_text(s):
-    return s[:1].isalpha() or s[:1] == "_"
+    # also a digit-led mnemonic such as `2dup` (a number token to the tokenizer) is written as one word
+    return s[:1].isalnum() or s[:1] == "_"
+
 
 
 class IsaGen:
